@@ -50,6 +50,13 @@ def gen_case(seed: int, tier: str, index: int) -> Dict[str, Any]:
                              "PING_FREQUENCY_IN_SECONDS": 2} for m in ("active", "idle")}
         cfg["snapshot"] = snapshot_files()[rng.randrange(len(snapshot_files()))].split("/")[-1]
         cfg["loop"] = {"cost_small_p": 0.1, "cost_small_max": 0.002}
+        if rng.random() < 0.5:
+            # lossy runs: retried requests draw fresh numbers, unsolicited STATP acknowledgements draw while a request waits
+            cfg["lossy"] = True
+            cfg["net"].update({"loss": rng.choice([0.05, 0.12, 0.25]), "slow_p": 0.05, "slow_max": rng.choice([0.5, 3.0]), "dup": 0.03})
+            for m in ("active", "idle"):
+                cfg["tables"][m].update({"PROTOCOL_TIMEOUT_IN_SECONDS": rng.choice([1, 2]), "PROTOCOL_RETRY_COUNT": rng.choice([2, 4]),
+                                         "PING_DEVICE_NOT_RESPONDING_TIMEOUT_IN_SECONDS": 20})
         t = 0.0
         for _ in range(rng.randint(120, 200)):
             t += rng.choice([0.3, 1.0, 2.5])
@@ -244,6 +251,9 @@ async def wire_async(world: WorldA) -> None:
     model = sysm.peer.sim
     async with sysm.man as man:
         await sysm.wait_connected()
+        lossy = bool(world.cfg.get("lossy"))
+        if lossy:
+            world.net.healed = False
         base = world.now()
         for op in world.case["plan"]:
             wait = base + op["t"] - world.now()
@@ -251,6 +261,9 @@ async def wire_async(world: WorldA) -> None:
                 await asyncio.sleep(wait)
             spa = sysm.spa
             if spa is None or not spa.is_connected:
+                if lossy:
+                    res.probe("op_skipped_not_connected")
+                    continue
                 await sysm.wait_connected(cap=300)
                 spa = sysm.spa
             try:
@@ -275,9 +288,9 @@ async def wire_async(world: WorldA) -> None:
         await asyncio.sleep(2.0)
     check_wire(world, res, "async")
     res.nontrivial = res.stats.get("wire_checked", 0) > 50
-    res.faultfree = True
+    res.faultfree = not lossy
     res.shape = format(mix(0, repr([o["op"] for o in world.case["plan"]])), "x")
-    res.sample = {"kind": "wire-async", "datagrams_checked": res.stats.get("wire_checked"), "spack": res.stats.get("spack_on_wire"), "ops": len(world.case["plan"])}
+    res.sample = {"kind": "wire-async", "lossy": lossy, "datagrams_checked": res.stats.get("wire_checked"), "spack": res.stats.get("spack_on_wire"), "ops": len(world.case["plan"])}
 
 
 def wire_sync(world: WorldT) -> None:
